@@ -22,7 +22,7 @@ PID = "C07"
 
 A_CFG = {"n_tables": (1, 1), "max_nodes": 4, "final_order": 0.0, "ops": {"natural_join": 1, "concat_rows": 1, "convert_records": 1}}
 B_OPS = {
-    "extend": 4, "window": 2, "ordered_window": 2, "project": 2, "select_rows": 4, "select_columns": 2, "drop_columns": 2,
+    "extend": 4, "window": 2, "ordered_window": 4, "project": 2, "select_rows": 4, "select_columns": 2, "drop_columns": 2,
     "rename_columns": 2, "map_columns": 4, "order_rows": 3, "natural_join": 2, "concat_rows": 1, "convert_records": 1,
 }
 
@@ -37,8 +37,36 @@ def draw_triple(draw):
     a = gen.draw_program(draw, A_CFG)
     sa = schema.infer(a)[a["root"]]
     g = gen.G(draw, {})
+    boundary = None
+    if g.boolean(0.3):
+        # a ENDS in an ordered window, b BEGINS with one that differs in a single window parameter: the place where
+        # composition meets the builder's extend merging
+        pair = gen.window_pair(g, sa)
+        if pair is not None:
+            first, second, variant = pair
+            first["src"] = a["root"]
+            a["nodes"].append(first)
+            try:
+                sa2 = schema.out_schema(first, schema.infer(a), a)
+                a["root"] = len(a["nodes"]) - 1
+                sa = sa2
+                boundary = (second, variant)
+            except (schema.TypeErr, KeyError):
+                a["nodes"].pop()
     bcfg = {"given_tables": {"mid": table_from_schema(sa)}, "only_given": True, "n_tables": (1, 1), "max_nodes": 4, "final_order": 0.15, "ops": B_OPS, "reuse_bias": True}
-    b = gen.draw_program(draw, bcfg)
+    if boundary is None:
+        b = gen.draw_program(draw, bcfg)
+    else:
+        bg = gen.G(draw, bcfg)
+        bb = gen.Builder(bg, bcfg)
+        second = dict(boundary[0])
+        second["src"] = bb.heads[0]
+        cur = bb.add(second)
+        if cur is None:
+            cur = bb.heads[0]
+        cur = bb.grow(cur, bg.pick([0, 0, 1, 2]), wander=0)
+        b = bb.finish(cur)
+        b["boundary_variant"] = boundary[1]
     out = {"a": a, "b": b, "c": None}
     if g.boolean(0.4):
         sb = schema.infer(b)[b["root"]]
